@@ -1,7 +1,14 @@
 """C19 — configuration store: correspondence with Model/Config.lean + last-writer-wins
 reference-map predicate evaluated on the real quantem.core.config."""
+import contextlib
 import copy
+import inspect
 import json
+import os
+import re
+import shutil
+import sys
+import tempfile
 
 LEVEL = "proof"
 MANIFEST_ENTRY = {
@@ -24,7 +31,20 @@ SEGS = ["a", "b", "a_b", "a-b", "c_d", "c-d", "k", "viz", "dtype_real", "dtype-r
 DEVICES = ["cpu", "CPU", "cuda", "cuda:0", "cuda:1", "gpu", "GPU", "mps", "xcpux", "cpu:0", "tpu", "", "Cuda:0", "xcuda",
            -1, 0, 1, 5, True, None, 1.5, ["cpu"], "my-cpu-box", "Mps",
            # torch.device objects (a documented input form of validate_device)
-           TD + "cpu", TD + "cpu:0", TD + "mps", TD + "mps:0", TD + "cuda", TD + "cuda:1", TD + "meta"]
+           TD + "cpu", TD + "cpu:0", TD + "mps", TD + "mps:0", TD + "cuda", TD + "cuda:1", TD + "meta",
+           # spellings torch.device() itself refuses, near-misses of the accepted words, indices at the device count
+           "cuda:2", "cuda:3", "cuda:01", "cuda:", "cuda:-1", "cuda: 1", "CUDA", "cuda:1x", "cuda:0:1", " cuda", "cuda ",
+           "xgpux", "my-gpu-box", "gpu:0", "Gpu", "mps:0", "xmps", "cpu ", " cpu", "Cpu", "cpux", 2, 3, False, 0.0, {"cpu": 1},
+           TD + "cuda:0", TD + "cuda:2", TD + "cuda:3"]
+# device environments: the real one plus simulated ones (torch availability answers are stubbed from the
+# harness process, the code under test is unchanged): n = torch.cuda.device_count(), cur = current_device()
+SIM_ENVS = [{"cuda": True, "mps": False, "n": 2, "cur": 0}, {"cuda": True, "mps": False, "n": 3, "cur": 2},
+            {"cuda": True, "mps": True, "n": 1, "cur": 0}, {"cuda": False, "mps": True, "n": 0, "cur": 0},
+            {"cuda": True, "mps": False, "n": 2, "cur": 2},   # current device beyond the count: 'cuda' without index is out of range
+            {"cuda": True, "mps": False, "n": 0, "cur": 0}]
+GET_DEFAULTS = ["DFLT", None, 0, False, "", [], {}, "__no_default__x"]
+GET_OVERRIDES = [0, False, "", "x", [], {}, 7]
+FILE_NAMES = ["a.yaml", "b.yml", "c.json", "B.yaml", "10.yaml", "9.yml", ".h.yaml", "notes.txt", "x.yaml.bak", "d.YAML", "zz.json", "a.yml"]
 
 
 def real(v):
@@ -73,7 +93,14 @@ def gen_path(rng):
 
 def gen_op(rng, touched):
     kind = rng.weighted([("set", 6), ("set_kw", 2), ("with", 3), ("get", 4), ("update_defaults", 3), ("refresh", 1),
-                         ("device", 3), ("device_nested", 1)])
+                         ("device", 3), ("device_nested", 1), ("refresh_path", 1), ("set_scratch", 0.5), ("set_odd", 0.7)])
+    if kind == "set_odd":
+        # degenerate key spellings: empty segments, leading / trailing / tripled separators
+        if rng.chance(0.5):
+            k = rng.choice(["", ".", "a.", ".a", "a..b", "k.", "viz..cmap"])
+            return {"op": "set", "arg": [[k, gen_value(rng)]], "kwargs": []}
+        k = rng.choice(["a___b", "_a", "a_", "__a", "a__", "a____b", "viz___cmap", "_"])
+        return {"op": "set", "arg": [], "kwargs": [[k, gen_value(rng)]]}
     if kind in ("set", "with"):
         items = []
         for _ in range(rng.randint(1, 3)):
@@ -96,7 +123,11 @@ def gen_op(rng, touched):
         return {"op": kind, "arg": ded, "kwargs": kw}
     if kind == "set_kw":
         p = [s for s in gen_path(rng) if "-" not in s] or ["k"]
-        return {"op": "set", "arg": [], "kwargs": [["__".join(p), gen_value(rng)]]}
+        o = {"op": "set", "arg": [], "kwargs": [["__".join(p), gen_value(rng)]]}
+        via = rng.choice([None, "kwargs-only", "arg-none"])   # set({}, **kw) / set(**kw) / set(None, **kw)
+        if via:
+            o["via"] = via
+        return o
     if kind == "get":
         p = rng.choice(touched) if touched and rng.chance(0.7) else gen_path(rng)
         if rng.chance(0.4):
@@ -104,9 +135,17 @@ def gen_op(rng, touched):
         if rng.chance(0.2):
             p = p + [rng.choice(SEGS)]
         o = {"op": "get", "key": ".".join(p)}
-        if rng.chance(0.3):
-            o["default"] = "DFLT"
+        if rng.chance(0.4):     # falsy defaults included: `default is not no_default`, not truthiness
+            o["default"] = rng.choice(GET_DEFAULTS)
+        if rng.chance(0.12):    # `override_with is not None`: 0 / False / "" are returned as they are
+            o["override"] = rng.choice(GET_OVERRIDES)
         return o
+    if kind == "refresh_path":
+        return {"op": "refresh_path", "path": gen_pathspec(rng)}
+    if kind == "set_scratch":
+        sc = gen_value(rng, 1)
+        return {"op": "set_scratch", "scratch": sc if isinstance(sc, dict) else {},
+                "arg": [[".".join(gen_path(rng)), gen_value(rng)] for _ in range(rng.randint(1, 2))], "kwargs": []}
     if kind == "update_defaults":
         d = {}
         for _ in range(rng.randint(1, 3)):
@@ -139,6 +178,66 @@ def gen_op(rng, touched):
             return {"op": "set", "arg": [], "kwargs": [["device", v]]}
         return dict({"op": "set", "arg": [["device", v]], "kwargs": []}, **({"via": "set_device"} if via == "set_device" else {}))
     return {"op": "set", "arg": [["viz.device", rng.choice(DEVICES)]], "kwargs": []}
+
+
+def gen_file_content(rng):
+    kind = rng.weighted([("dict", 7), ("empty", 1), ("malformed", 0.6), ("nondict", 0.6), ("unreadable", 0.5)])
+    if kind != "dict":
+        return kind
+    d = gen_value(rng, 1)
+    d = d if isinstance(d, dict) else {rng.choice(SEGS[:9]): gen_leaf(rng)}
+    if rng.chance(0.12):
+        d["device"] = rng.choice(["cpu", "CPU", "tpu", "gpu", "cuda:0", "mps", 0, None])
+    return {"dict": d}
+
+
+def gen_pathspec(rng):
+    """what `refresh(path=...)` finds: nothing, one file (any name), or a directory listing"""
+    kind = rng.weighted([("dir", 7), ("file", 1.5), ("missing", 1.5)])
+    if kind == "missing":
+        return {"kind": "missing"}
+    if kind == "file":
+        return {"kind": "file", "name": rng.choice(["conf.txt", "one.yaml", "noext"]), "content": gen_file_content(rng)}
+    names = rng.sample(FILE_NAMES, rng.randint(0, 4))
+    return {"kind": "dir", "entries": [[n, gen_file_content(rng)] for n in names]}
+
+
+def materialise(spec, root):
+    """write the files of a path spec below `root`; returns the path to hand to refresh()"""
+    import yaml
+
+    def put(path, content, as_json):
+        if content == "unreadable":
+            os.mkdir(path)          # open() raises IsADirectoryError (an OSError): ignored by the loader
+            return
+        text = {"empty": "", "malformed": "a: [1, 2\nb: }", "nondict": "- 1\n- 2\n"}.get(content) if isinstance(content, str) else None
+        if text is None:
+            d = real(content["dict"])
+            text = json.dumps(d) if as_json else yaml.safe_dump(d, sort_keys=False)
+        with open(path, "w") as f:
+            f.write(text)
+
+    if spec["kind"] == "missing":
+        return os.path.join(root, "does-not-exist")
+    if spec["kind"] == "file":
+        p = os.path.join(root, spec["name"])
+        put(p, spec["content"], False)
+        return p
+    d = os.path.join(root, "cfgdir")
+    os.mkdir(d)
+    for name, content in spec["entries"]:
+        put(os.path.join(d, name), content, name.endswith(".json"))
+    return d
+
+
+def pathspec_to_model(spec):
+    def c(content):
+        return content if isinstance(content, str) else {"dict": to_tree(content["dict"])}
+    if spec["kind"] == "missing":
+        return {"kind": "missing"}
+    if spec["kind"] == "file":
+        return {"kind": "file", "content": c(spec["content"])}
+    return {"kind": "dir", "entries": [[n, c(x)] for n, x in spec["entries"]]}
 
 
 def alt(k):
@@ -206,15 +305,61 @@ def ref_update_defaults(cfg, new, cur_defaults):
                 cfg[k] = v
 
 
-def ref_device(v):
-    """accepted device strings on a machine without cuda/mps: exactly 'cpu' in any case, or None (→ cpu)"""
-    if v is None:
-        return "cpu"
+def ref_device(v, env=None):
+    """the property's oracle for device requests, written from the documentation of validate_device, not from its
+    code: the normalised device that must be stored, or None when the request must be rejected (malformed, or
+    not available in the device environment `env`)."""
+    env = env or {"cuda": False, "mps": False, "n": 0, "cur": 0}
+    cuda, mps, n, cur = env["cuda"], env["mps"], env["n"], env.get("cur", 0)
+
+    def fin_cuda(idx):
+        i = cur if idx is None else idx
+        return f"cuda:{i}" if cuda and 0 <= i < n else None
+
+    def fin_mps():
+        return "mps" if mps else None
+
+    if v is None:        # "the current default device"
+        return fin_cuda(None) if cuda else fin_mps() if mps else "cpu"
     if isinstance(v, str) and v.startswith(TD):
-        return "cpu" if real(v).type == "cpu" else None
-    if isinstance(v, str) and v.lower() == "cpu":
-        return "cpu"
+        d = real(v)
+        return {"cuda": lambda: fin_cuda(d.index), "mps": fin_mps, "cpu": lambda: "cpu"}.get(d.type, lambda: None)()
+    if isinstance(v, bool) or isinstance(v, (dict, list, float)):
+        return None
+    if isinstance(v, int):
+        return fin_cuda(v) if v >= 0 else None
+    if isinstance(v, str):
+        m = re.fullmatch(r"cuda(?::(0|[1-9][0-9]*))?", v)
+        if m:
+            return fin_cuda(int(m.group(1)) if m.group(1) is not None else None)
+        if v.lower() == "gpu":
+            return fin_cuda(None) if cuda else fin_mps()
+        if v.lower() == "mps":
+            return fin_mps()
+        if v.lower() == "cpu":
+            return "cpu"
     return None  # rejected
+
+
+@contextlib.contextmanager
+def device_env(cfgmod, env, real_env):
+    """make torch answer the availability questions of validate_device as in `env` (stubs installed from the
+    harness process; /repo is not touched).  `torch.cuda.set_device` is replaced by a recorder."""
+    if env == real_env:
+        yield None
+        return
+    import torch
+    calls = []
+    saved = (torch.cuda.is_available, torch.mps.is_available, torch.cuda.current_device, torch.cuda.set_device, cfgmod.NUM_DEVICES)
+    torch.cuda.is_available = lambda: env["cuda"]
+    torch.mps.is_available = lambda: env["mps"]
+    torch.cuda.current_device = lambda: env.get("cur", 0)
+    torch.cuda.set_device = lambda i: calls.append(i)
+    cfgmod.NUM_DEVICES = env["n"]
+    try:
+        yield calls
+    finally:
+        (torch.cuda.is_available, torch.mps.is_available, torch.cuda.current_device, torch.cuda.set_device, cfgmod.NUM_DEVICES) = saved
 
 
 class Ref:
@@ -240,9 +385,41 @@ def device_available():
     return {"cuda": bool(torch.cuda.is_available()), "mps": bool(torch.mps.is_available()), "n": int(torch.cuda.device_count())}
 
 
-def run_sequence(ctx, drv, cfgmod, ops, init, env, module_state):
+def _items_of(op):
+    return [(k, v) for k, v in op["arg"]] + [(k.replace("__", "."), v) for k, v in op["kwargs"]]
+
+
+def _related(k1, k2):
+    a, b = [nk(x) for x in k1.split(".")], [nk(x) for x in k2.split(".")]
+    n = min(len(a), len(b))
+    return a[:n] == b[:n]
+
+
+def _leaf_on_prefix(cfg, record):
+    """does some proper prefix of a recorded undo path resolve to a non-mapping in `cfg`?  (then `__exit__`
+    raises from inside its walk; the model's `exitCtx` is total and does not describe that case)"""
+    for _op, path, _v in record:
+        d = cfg
+        for key in path[:-1]:
+            if not isinstance(d, dict):
+                return True
+            if key not in d:
+                break
+            d = d[key]
+        else:
+            if not isinstance(d, dict):
+                return True
+    return False
+
+
+def run_sequence(ctx, drv, cfgmod, ops, init, env, module_state, real_env=None):
+    real_env = real_env or device_available()
+    with device_env(cfgmod, env, real_env):
+        return _run_sequence(ctx, drv, cfgmod, ops, init, env, module_state)
+
+
+def _run_sequence(ctx, drv, cfgmod, ops, init, env, module_state):
     init_cfg, init_defaults = (copy.deepcopy(module_state[0]), copy.deepcopy(module_state[1])) if init == "module" else ({}, [])
-    """returns the first event worth reporting, or None"""
     # --- reset the real module and the model to the same state
     cfgmod.config.clear()
     cfgmod.config.update(copy.deepcopy(init_cfg))
@@ -250,86 +427,164 @@ def run_sequence(ctx, drv, cfgmod, ops, init, env, module_state):
     r = drv.ask({"op": "init", "env": env, "config": to_tree(init_cfg), "defaults": [to_tree(d) for d in init_defaults]})
     assert "err" not in r, r
     ref = Ref(init_cfg, init_defaults)
-    if env["cuda"] or env["mps"]:
-        ref.valid = False
     model_ok = True
+    open_cms = []     # (context manager, [(key, found, value before the block)]) of the blocks entered and not left
+    envtag = "real" if not (env["cuda"] or env["mps"]) else ("cuda" if env["cuda"] else "") + ("mps" if env["mps"] else "")
     for i, op in enumerate(ops):
         before = copy.deepcopy(cfgmod.config)
         dev_before = before.get("device", "<absent>")
         kind = op["op"]
+        if kind == "exit" and not open_cms:
+            continue
         res = None
         inside = None
+        in_scope = True
+        snap = None
+        tmpdir = None
         try:
             if kind == "set":
                 if op.get("via") == "set_device":
                     cfgmod.set_device(real(op["arg"][0][1]))
+                elif op.get("via") == "kwargs-only":
+                    cfgmod.set(**{k: real(v) for k, v in op["kwargs"]})
+                elif op.get("via") == "arg-none":
+                    cfgmod.set(None, **{k: real(v) for k, v in op["kwargs"]})
                 else:
                     cfgmod.set(dict((k, real(v)) for k, v in op["arg"]), **{k: real(v) for k, v in op["kwargs"]})
                 res = {"ok": None}
             elif kind == "with":
-                with cfgmod.set(dict((k, real(v)) for k, v in op["arg"]), **{k: real(v) for k, v in op["kwargs"]}):
+                with cfgmod.set(dict((k, real(v)) for k, v in op["arg"]), **{k: real(v) for k, v in op["kwargs"]}) as entered:
                     inside = copy.deepcopy(cfgmod.config)
+                    if entered is not cfgmod.config:
+                        ctx.disagree("with-as", {"init": init, "ops": ops[: i + 1], "env": env}, "the configuration dict",
+                                     type(entered).__name__, note="`with set(...) as c` does not hand out the store")
                 res = {"ok": {"inside": to_tree(inside)}}
-            elif kind == "get":
-                if "default" in op:
-                    v = cfgmod.get(op["key"], op["default"])
-                    # the model distinguishes "found" from "default"; do the same here
+            elif kind == "enter":
+                snap = []
+                keys = [k for k, _ in _items_of(op)]
+                for k in keys:
+                    if all(uniform(x) for x in k.split(".")) and not any(o is not k and _related(k, o) for o in keys):
+                        try:
+                            snap.append((k, True, copy.deepcopy(cfgmod.get(k))))
+                        except (TypeError, IndexError, KeyError):
+                            snap.append((k, False, None))
+                cm = cfgmod.set(dict((k, real(v)) for k, v in op["arg"]), **{k: real(v) for k, v in op["kwargs"]})
+                cm.__enter__()
+                open_cms.append((cm, snap, []))
+                res = {"ok": None}
+            elif kind == "exit":
+                cm, snap, body_writes = open_cms.pop()
+                # the clause is about the values the block itself set: keys the BODY wrote as well (or a body that
+                # re-read the user's yaml files) are left to the model comparison
+                snap = [] if "*" in body_writes else [t for t in snap if not any(_related(t[0], w) for w in body_writes)]
+                in_scope = not _leaf_on_prefix(cfgmod.config, cm._record)
+                if op.get("raise"):     # the body of the block raised: __exit__ runs with the exception triple
                     try:
-                        v2 = cfgmod.get(op["key"])
-                        res = {"ok": to_tree(v2)}
-                    except (TypeError, IndexError, KeyError):
-                        res = {"ok": {"default": v}}
+                        raise LookupError("body")
+                    except LookupError:
+                        swallowed = cm.__exit__(*sys.exc_info())
+                    if swallowed:
+                        ctx.disagree("with-exit-swallows", {"init": init, "ops": ops[: i + 1], "env": env}, False, swallowed,
+                                     note="__exit__ returned a true value: an exception of the block body would be swallowed")
                 else:
-                    res = {"ok": to_tree(cfgmod.get(op["key"]))}
+                    cm.__exit__(None, None, None)
+                res = {"ok": None}
+            elif kind == "get":
+                kw = {"override_with": real(op["override"])} if "override" in op else {}
+                args = (op["key"],) + ((real(op["default"]),) if "default" in op else ())
+                v = cfgmod.get(*args, **kw)
+                try:
+                    cfgmod.get(op["key"])
+                    found = True
+                except (TypeError, IndexError, KeyError):
+                    found = False
+                res = {"ok": {"v": to_tree(v), "found": found}}
             elif kind == "update_defaults":
                 cfgmod.update_defaults(real(op["new"]))
                 res = {"ok": None}
             elif kind == "refresh":
                 cfgmod.refresh()
                 res = {"ok": None}
+            elif kind == "refresh_path":
+                tmpdir = tempfile.mkdtemp(prefix="c19cfg")
+                path = materialise(op["path"], tmpdir)
+                cfgmod.refresh(path=path if i % 2 else __import__("pathlib").Path(path))
+                res = {"ok": None}
+            elif kind == "set_scratch":
+                scratch = real(op["scratch"])
+                try:
+                    cfgmod.set(dict((k, real(v)) for k, v in op["arg"]), config=scratch)
+                    res = {"out": to_tree(scratch), "res": {"ok": None}}
+                except Exception as e:  # noqa
+                    res = {"out": to_tree(scratch), "res": {"err": err_name(e)}}
         except Exception as e:  # noqa
             res = {"err": err_name(e)}
-            exc = e
+        finally:
+            if tmpdir:
+                shutil.rmtree(tmpdir, ignore_errors=True)
         after = copy.deepcopy(cfgmod.config)
+        case = {"init": init, "ops": ops[: i + 1], "env": env}
+        if open_cms:
+            wr = (["*"] if kind == "refresh_path" else
+                  [k for k, _ in _items_of(op)] if kind in ("set", "with", "enter") else
+                  [".".join(pp) for pp, _ in leaf_paths(op["new"])] if kind == "update_defaults" else [])
+            for entry in (open_cms[:-1] if kind == "enter" and "err" not in (res or {}) else open_cms):
+                entry[2].extend(wr)
         if "device" in after:
             # the three readers of the stored device agree
             readers = {"get": cfgmod.get("device"), "get_device": cfgmod.get_device(), "device": cfgmod.device()}
             if len({json.dumps(v, default=str) for v in readers.values()}) != 1 or readers["get"] != after["device"]:
                 ctx.pred_fail("device-readers-disagree", "get('device'), get_device() and device() do not return the stored device",
-                              {"init": init, "ops": ops[: i + 1], "env": env}, observed={k: str(v) for k, v in readers.items()}, required=str(after["device"]))
+                              case, observed={k: str(v) for k, v in readers.items()}, required=str(after["device"]))
         # --- model
-        mreq = {k: (v if k not in ("arg", "kwargs") else [[a, to_tree(b)] for a, b in v]) for k, v in op.items() if k != "via"}
+        mreq = {k: (v if k not in ("arg", "kwargs") else [[a, to_tree(b)] for a, b in v]) for k, v in op.items()
+                if k not in ("via", "raise")}
         if kind == "update_defaults":
             mreq["new"] = to_tree(op["new"])
+        elif kind == "refresh_path":
+            mreq["path"] = pathspec_to_model(op["path"])
+        elif kind == "set_scratch":
+            mreq["scratch"] = to_tree(op["scratch"])
+        elif kind == "get":
+            for f in ("default", "override"):
+                if f in op:
+                    mreq[f] = to_tree(op[f])
         m = drv.ask(mreq)
         ctx.count()
         depth = max([len(k.split(".")) for k, _ in op.get("arg", [])] + [len(op.get("key", "").split("."))])
         twin = any("-" in k or "_" in k for k, _ in op.get("arg", [])) or "-" in op.get("key", "")
+        errk = res.get("err") or (res.get("res") or {}).get("err")
         if before:
-            ctx.mark((kind, "err" if "err" in res else "ok", depth, twin, min(len(json.dumps(before, default=str)) // 200, 5)))
+            ctx.mark((kind, "err" if errk else "ok", depth, twin, min(len(json.dumps(before, default=str)) // 200, 5),
+                      envtag, len(open_cms) > 0, "default" in op, "override" in op))
         ctx.dist[f"op:{kind}"] += 1
-        ctx.dist["outcome:" + (res.get("err") or "ok")] += 1
+        ctx.dist["outcome:" + (errk or "ok")] += 1
+        ctx.dist["env:" + envtag] += 1
         impl_view = {"r": res, "cfg": to_tree(after), "ndefaults": len(cfgmod.defaults)}
         if "driver" in str(m.get("err", "")):
             raise RuntimeError(f"driver error {m}")
-        stop = False
+        if kind == "exit" and not in_scope:
+            # `__exit__` met a non-mapping on a recorded path (the body replaced a section by a scalar): Python raises
+            # from inside the walk; outside the model, and "the previous values" cannot be restored there
+            ctx.dist["exit-outside-model"] += 1
+            model_ok = False
+            ref.valid = False
         if model_ok and m != json.loads(json.dumps(impl_view)):
-            ctx.disagree("config-ops", {"init": init, "ops": ops[: i + 1]}, m, impl_view,
+            ctx.disagree("config-ops", {"init": init, "ops": ops[: i + 1], "env": env}, m, impl_view,
                          note=f"op #{i} {kind}")
             # the model has diverged: stop comparing with it, but keep driving the real module so
             # that the property predicates can still find a failing input later in the history
             model_ok = False
         # --- property predicates on the implementation --------------------------------
-        case = {"init": init, "ops": ops[: i + 1], "env": env}
-        if kind in ("set", "with"):
-            items = [(k, v) for k, v in op["arg"]] + [(k.replace("__", "."), v) for k, v in op["kwargs"]]
+        if kind in ("set", "with", "enter"):
+            items = _items_of(op)
             if not all(all(uniform(s) for s in k.split(".")) and all_uniform(v) and twin_free(v) for k, v in items):
                 ref.valid = False
             failed_dev = False
             applied = []
             for k, v in items:
                 if k == "device":
-                    dv = ref_device(v) if not isinstance(v, dict) else None
+                    dv = ref_device(v, env) if not isinstance(v, dict) else None
                     if dv is None:
                         failed_dev = True
                         break
@@ -363,7 +618,7 @@ def run_sequence(ctx, drv, cfgmod, ops, init, env, module_state):
                     ref.cfg = norm(copy.deepcopy(before))
                 elif failed_dev:
                     pass
-            if ref.valid and kind == "set" and "err" not in res:
+            if ref.valid and kind in ("set", "enter") and "err" not in res:
                 # last-writer-wins: every item readable under both spellings
                 for k, v in applied:
                     for spell in (k, ".".join(alt(s) for s in k.split("."))):
@@ -377,11 +632,30 @@ def run_sequence(ctx, drv, cfgmod, ops, init, env, module_state):
                         if norm(got) != norm(real(v)):
                             ctx.pred_fail("get-after-set", f"get({spell!r}) after set({k!r}) does not return the value set", case,
                                           observed=got, required=v)
+        elif kind == "exit":
+            if "err" in res:
+                if in_scope:
+                    ctx.pred_fail("ctx-exit-raises", f"leaving a `with config.set(...)` block raised {res['err']}", case, observed=res,
+                                  required="previous values restored")
+                ref.valid = False
+            elif in_scope and twin_free(after):
+                for k, found, val in snap:
+                    try:
+                        now = (True, cfgmod.get(k))
+                    except (TypeError, IndexError, KeyError):
+                        now = (False, None)
+                    if now[0] != found or (found and norm(now[1]) != norm(val)):
+                        ctx.pred_fail("ctx-restore", f"leaving the with block did not restore the previous value of {k!r}", case,
+                                      observed={"found": now[0], "value": now[1]}, required={"found": found, "value": val})
+            if all_uniform(after) and twin_free(after):
+                ref.cfg = norm(copy.deepcopy(after))
+            else:
+                ref.valid = False
         elif kind == "update_defaults":
             new = op["new"]
             if not (all_uniform(new) and twin_free(new)):
                 ref.valid = False
-            dv_bad = "device" in new and (isinstance(new["device"], dict) or ref_device(new["device"]) is None)
+            dv_bad = "device" in new and (isinstance(new["device"], dict) or ref_device(new["device"], env) is None)
             if dv_bad:
                 if "err" not in res:
                     ctx.pred_fail("device-accepts-malformed", "malformed/unavailable device default was accepted", case,
@@ -392,7 +666,7 @@ def run_sequence(ctx, drv, cfgmod, ops, init, env, module_state):
             elif ref.valid and "err" not in res:
                 n = norm(copy.deepcopy(new))
                 if "device" in n:
-                    n["device"] = ref_device(n["device"])
+                    n["device"] = ref_device(n["device"], env)
                 cur = {}
                 for d in ref.defaults:
                     ref_merge(cur, copy.deepcopy(d))
@@ -411,12 +685,19 @@ def run_sequence(ctx, drv, cfgmod, ops, init, env, module_state):
                           "(a rejected request must leave the store unchanged)", case, observed=res,
                           required="configuration = merge of the accumulated defaults")
             ref.valid = False
-        if ref.valid and "err" not in res and kind != "get":
+        elif kind == "refresh_path":
+            # what the user's yaml files add on top of the defaults is outside the property text: the reference map
+            # follows the implementation here (the model-vs-code comparison above is what checks this operation)
+            if "err" not in res and all_uniform(after) and twin_free(after):
+                ref.cfg = norm(copy.deepcopy(after))
+            else:
+                ref.valid = False
+        if ref.valid and not errk and kind != "get":
             if norm(after) != ref.cfg:
                 ctx.pred_fail(f"lww-map-{kind}", f"configuration after {kind} differs from the last-writer-wins reference map",
                               case, observed=norm(after), required=ref.cfg)
                 ref.valid = False
-        if kind == "get" and ref.valid:
+        if kind == "get" and ref.valid and "override" not in op:
             path = [nk(s) for s in op["key"].split(".")]
             cur = ref.cfg
             found = True
@@ -427,14 +708,13 @@ def run_sequence(ctx, drv, cfgmod, ops, init, env, module_state):
                     found = False
                     break
             if all(uniform(s) for s in op["key"].split(".")):
-                if found and ("err" in res or norm_tree(res.get("ok")) != to_tree(cur)):
+                ok = res.get("ok") or {}
+                if found and ("err" in res or not ok.get("found") or norm_tree(ok.get("v")) != to_tree(cur)):
                     ctx.pred_fail("get-lww", "get does not return the most recently set value", case, observed=res, required=cur)
-                if not found and "err" not in res and "default" not in (res.get("ok") or {}):
+                if not found and "err" not in res and ok.get("found"):
                     ctx.pred_fail("get-phantom", "get returned a value for a key never set", case, observed=res, required="KeyError/default")
         if ctx.samples is not None and i == len(ops) - 1:
-            ctx.sample({"init": "module defaults" if init_defaults else "empty", "ops": ops[:6], "final_result": res}, limit=3)
-        if stop:
-            break
+            ctx.sample({"init": "module defaults" if init_defaults else "empty", "env": envtag, "ops": ops[:6], "final_result": res}, limit=3)
     return None
 
 
@@ -455,26 +735,276 @@ def _module():
     return cfgmod
 
 
+PINNED = {   # public parameters (name, default) the model and the harness rely on; extra trailing optional ones are fine
+    "set.__init__": [("self", "<req>"), ("arg", None), ("config", "<store>"), ("kwargs", "<var>")],
+    "get": [("key", "<req>"), ("default", "__no_default__"), ("config", "<store>"), ("override_with", None)],
+    "update": [("old", "<req>"), ("new", "<req>"), ("priority", "new"), ("defaults", None)],
+    "update_defaults": [("new", "<req>"), ("config", "<store>"), ("defaults", "<defaults>")],
+    "refresh": [("config", "<store>"), ("defaults", "<defaults>"), ("kwargs", "<var>")],
+    "merge": [("dicts", "<var>")],
+    "canonical_name": [("k", "<req>"), ("config", "<req>")],
+    "validate_device": [("dev", None)],
+    "set_device": [("dev", "<req>")],
+    "collect": [("path", "<PATH>"), ("env", None)],
+}
+
+
+def stream_signatures(ctx, cfgmod):
+    """pin what the model takes for granted about the module: public signatures / defaults, empty alias and
+    deprecation tables, the no-default sentinel"""
+    def desc(f):
+        out = []
+        for name, prm in inspect.signature(f).parameters.items():
+            if name.startswith("_"):
+                continue
+            if prm.kind in (prm.VAR_POSITIONAL, prm.VAR_KEYWORD):
+                d = "<var>"
+            elif prm.default is prm.empty:
+                d = "<req>"
+            elif prm.default is cfgmod.config:
+                d = "<store>"
+            elif prm.default is cfgmod.defaults:
+                d = "<defaults>"
+            elif prm.default is cfgmod.PATH or prm.default == cfgmod.PATH:
+                d = "<PATH>"
+            else:
+                d = prm.default
+            out.append((name, d))
+        return out
+    for name, want in PINNED.items():
+        ctx.count()
+        obj = cfgmod
+        try:
+            for part in name.split("."):
+                obj = getattr(obj, part)
+            have = desc(obj)
+        except Exception as e:  # noqa
+            have = f"<{type(e).__name__}>"
+        extra_ok = isinstance(have, list) and have[: len(want)] == want and all(d not in ("<req>",) for _, d in have[len(want):])
+        var_ok = isinstance(have, list) and [x for x in have if x[1] != "<var>"][: len([w for w in want if w[1] != "<var>"])] == [w for w in want if w[1] != "<var>"] \
+            and all(w in have for w in want) and all(d != "<req>" for x, d in have if (x, d) not in want)
+        if not (extra_ok or var_ok):
+            ctx.disagree("signature", {"function": name}, [list(w) for w in want], json.loads(json.dumps(have, default=str)),
+                         note="public signature / default the model relies on has changed")
+    for name, want in (("aliases", {}), ("deprecations", {}), ("no_default", "__no_default__")):
+        ctx.count()
+        if getattr(cfgmod, name, "<missing>") != want:
+            ctx.disagree("module-table", {"name": name}, want, repr(getattr(cfgmod, name, "<missing>")),
+                         note="the model assumes empty alias / deprecation tables and this sentinel")
+
+
+def stream_initialize(ctx, drv, cfgmod, saved_cfg, saved_defaults, env):
+    """import-time path: `refresh()` on the built-in defaults, then `_initialize()` = update_defaults(quantem.yaml).
+    Replayed on fresh dictionaries through the explicit `config=` / `defaults=` parameters and on the model; both must
+    give the state the module had when it was imported."""
+    import yaml
+    fn = os.path.join(os.path.dirname(cfgmod.__file__), "quantem.yaml")
+    with open(fn) as f:
+        y = yaml.safe_load(f)
+    c, d = {}, [copy.deepcopy(saved_defaults[0])]
+    empty = tempfile.mkdtemp(prefix="c19empty")
+    try:
+        cfgmod.refresh(config=c, defaults=d, path=empty)
+        cfgmod.update_defaults(copy.deepcopy(y), config=c, defaults=d)
+    finally:
+        shutil.rmtree(empty, ignore_errors=True)
+    drv.ask({"op": "init", "env": env, "config": to_tree({}), "defaults": [to_tree(saved_defaults[0])]})
+    drv.ask({"op": "refresh"})
+    m = drv.ask({"op": "update_defaults", "new": to_tree(y)})
+    ctx.count(3)
+    case = {"stream": "initialize"}
+    if m.get("cfg") != to_tree(c) or m.get("ndefaults") != len(d):
+        ctx.disagree("initialize", case, m, {"cfg": to_tree(c), "ndefaults": len(d)}, note="model of refresh + update_defaults(quantem.yaml)")
+    if to_tree(c) != to_tree(saved_cfg) or d != saved_defaults:
+        ctx.disagree("initialize-explicit-params", case, to_tree(saved_cfg), to_tree(c),
+                     note="refresh/update_defaults on explicit config=/defaults= differ from the module state at import")
+    # every scalar of the shipped yaml is readable under both spellings of its path (the store's defaults)
+    def leaves(t, pre=()):
+        for k, v in t.items():
+            if isinstance(v, dict):
+                yield from leaves(v, pre + (k,))
+            else:
+                yield pre + (k,), v
+    cfgmod.config.clear()
+    cfgmod.config.update(copy.deepcopy(saved_cfg))
+    for path, v in leaves(y):
+        if not all(uniform(s) and "." not in s for s in path):
+            continue
+        for spell in (path, tuple(alt(s) for s in path)):
+            ctx.count()
+            want = ref_device(v, env) if path == ("device",) else v
+            try:
+                got = cfgmod.get(".".join(spell))
+            except Exception as e:  # noqa
+                got = f"<{type(e).__name__}>"
+            if got != want:
+                ctx.pred_fail("default-not-readable", f"shipped default {'.'.join(path)} is not returned by get({'.'.join(spell)!r})",
+                              {"stream": "initialize", "key": ".".join(spell)}, observed=got, required=want)
+
+
+def stream_validate_device(ctx, drv, cfgmod, real_env):
+    """validate_device(v) = (device string, device id) on every listed request form, in the real device environment
+    and in the simulated ones, against the model (exact) and the documentation oracle (rejection clause)."""
+    for env in [real_env] + [e for e in SIM_ENVS if e != real_env]:
+        drv.ask({"op": "init", "env": env, "config": to_tree({}), "defaults": []})
+        with device_env(cfgmod, env, real_env):
+            for v in DEVICES:
+                try:
+                    out = cfgmod.validate_device(real(v))
+                    impl = {"ok": [to_tree(out[0]), out[1]]}
+                except Exception as e:  # noqa
+                    impl = {"err": err_name(e)}
+                m = drv.ask({"op": "validate_device", "v": to_tree(v)})["r"]
+                ctx.count()
+                ctx.dist["validate_device:" + ("ok" if "ok" in impl else impl["err"])] += 1
+                ctx.mark(("validate_device", json.dumps(env, sort_keys=True), "ok" if "ok" in impl else impl["err"], type(v).__name__))
+                case = {"stream": "validate_device", "env": env, "v": v}
+                if m != json.loads(json.dumps(impl)):
+                    ctx.disagree("validate_device", case, m, impl)
+                want = ref_device(v, env) if not isinstance(v, dict) else None
+                if want is None and "ok" in impl:
+                    ctx.pred_fail("device-accepts-malformed", "validate_device accepted a malformed / unavailable device request", case,
+                                  observed=impl, required="rejection (exception)")
+
+
+def gen_plain_dict(rng, depth=0):
+    d = {}
+    for _ in range(rng.randint(0, 4)):
+        k = rng.choice(SEGS[:9] + ["device"] if depth == 0 and rng.chance(0.15) else SEGS[:9])
+        if nk(k) in [nk(x) for x in d]:
+            continue
+        if depth < 2 and rng.chance(0.35):
+            d[k] = gen_plain_dict(rng, depth + 1)
+        elif k == "device":
+            d[k] = rng.choice(["cpu", "CPU", "tpu", None, 0, "gpu", TD + "cpu"])
+        else:
+            d[k] = gen_leaf(rng)
+    return d
+
+
+def leaf_paths(t, pre=()):
+    for k, v in t.items():
+        if isinstance(v, dict) and v:
+            yield from leaf_paths(v, pre + (nk(k),))
+        else:
+            yield pre + (nk(k),), v
+
+
+def stream_update_merge(ctx, drv, cfgmod, env):
+    """the public `update(old, new, priority, defaults)` (all three priorities, defaults absent / empty / mapping /
+    scalar) and `merge(*dicts)` on the caller's own dictionaries: result and exception against the model, and
+    "nested updates merge without dropping sibling keys" / "the later mapping wins" on the real result."""
+    drv.ask({"op": "init", "env": env, "config": to_tree({}), "defaults": []})
+    for c in range(ctx.n(500, 5000)):
+        rng = ctx.rng.fork(1_000_000 + c)
+        if rng.chance(0.7):
+            old, new = gen_plain_dict(rng), gen_plain_dict(rng)
+            if rng.chance(0.3) and old:    # the other spelling of a key of `old`
+                k = rng.choice(list(old))
+                if alt(k) != k and nk(k) not in [nk(x) for x in new]:
+                    new[alt(k)] = gen_plain_dict(rng, 1) if rng.chance(0.4) else gen_leaf(rng)
+            prio = rng.choice(["old", "new", "new-defaults"])
+            defs = rng.weighted([(None, 2), ("dict", 5), ({}, 1), (5, 0.3), ("s", 0.3), (0, 0.3)])
+            if defs == "dict":
+                defs = gen_plain_dict(rng)
+                defs.pop("device", None)
+                for k, v in list(old.items()):     # make "value still equals the default" frequent
+                    if rng.chance(0.5) and k != "device":
+                        defs[alt(k) if rng.chance(0.3) and nk(k) not in [nk(x) for x in defs if x != k] and k not in defs else k] = copy.deepcopy(v)
+                if not twin_free(defs):
+                    defs = {k: v for k, v in defs.items() if k in old}
+            o = real(old)
+            try:
+                ret = cfgmod.update(o, real(new), priority=prio, defaults=real(defs) if defs is not None else None)
+                impl = {"out": to_tree(o), "res": {"ok": None}}
+                if ret is not o:
+                    ctx.disagree("update-returns-old", {"old": old, "new": new}, "the `old` object", type(ret).__name__)
+            except Exception as e:  # noqa
+                impl = {"out": to_tree(o), "res": {"err": err_name(e)}}
+            m = drv.ask({"op": "update", "old": to_tree(old), "new": to_tree(new), "priority": prio,
+                         "defaults": None if defs is None else to_tree(defs)})["r"]
+            ctx.count()
+            ctx.dist[f"update:{prio}:" + (impl["res"].get("err") or "ok")] += 1
+            ctx.mark(("update", prio, impl["res"].get("err") or "ok", type(defs).__name__, bool(old), bool(new)))
+            case = {"stream": "update", "old": old, "new": new, "priority": prio, "defaults": defs}
+            if m != json.loads(json.dumps(impl)):
+                ctx.disagree("update", case, m, impl)
+            if "err" in impl["res"] or not all(all_uniform(x) and twin_free(x) for x in (old, new)) or "device" in new:
+                continue
+            out, newp = dict(leaf_paths(o)), dict(leaf_paths(new))
+            for pth, v in leaf_paths(old):
+                if not any(pth[: min(len(pth), len(q))] == q[: min(len(pth), len(q))] for q in newp):
+                    if pth not in out or out[pth] != real(v):
+                        ctx.pred_fail("update-drops-sibling", "nested update dropped / changed a key the new mapping does not mention", case,
+                                      observed=out.get(pth, "<absent>"), required=v)
+            if prio == "new":
+                for pth, v in newp.items():
+                    if out.get(pth, "<absent>") != norm(real(v)) and not (isinstance(v, dict) and out.get(pth) in ({}, None)):
+                        ctx.pred_fail("update-new-loses", "update with priority 'new' did not store the new value", case,
+                                      observed=out.get(pth, "<absent>"), required=v)
+        else:
+            dicts = [gen_plain_dict(rng) for _ in range(rng.randint(0, 4))]
+            try:
+                impl = {"ok": to_tree(cfgmod.merge(*[real(d) for d in dicts]))}
+            except Exception as e:  # noqa
+                impl = {"err": err_name(e)}
+            m = drv.ask({"op": "merge", "dicts": [to_tree(d) for d in dicts]})["r"]
+            ctx.count()
+            ctx.dist["merge:" + (impl.get("err") or "ok")] += 1
+            case = {"stream": "merge", "dicts": dicts}
+            if m != json.loads(json.dumps(impl)):
+                ctx.disagree("merge", case, m, impl)
+
+
+def gen_sequence(rng):
+    touched, ops, depth = [], [], 0
+    for _ in range(rng.randint(2, 14)):
+        if depth < 2 and rng.chance(0.07):
+            while True:      # `cm = set(...); cm.__enter__()` with a body of further operations
+                op = gen_op(rng, touched)
+                if op["op"] in ("set", "with") and "via" not in op:
+                    break
+            op["op"] = "enter"
+            depth += 1
+        elif depth > 0 and rng.chance(0.3):
+            op = {"op": "exit"}
+            if rng.chance(0.25):
+                op["raise"] = True
+            depth -= 1
+        else:
+            op = gen_op(rng, touched)
+        for k, _v in op.get("arg", []):
+            touched.append(k.split("."))
+        ops.append(op)
+    ops.extend({"op": "exit"} for _ in range(depth))
+    return ops
+
+
 def run(ctx):
     from qv.driver import Driver
     cfgmod = _module()
     env = device_available()
+    env["cur"] = 0
     saved_cfg = copy.deepcopy(cfgmod.config)
     saved_defaults = copy.deepcopy(cfgmod.defaults)
     drv = Driver("C19")
     try:
+        stream_signatures(ctx, cfgmod)
+        stream_initialize(ctx, drv, cfgmod, saved_cfg, saved_defaults, env)
+        stream_validate_device(ctx, drv, cfgmod, env)
+        stream_update_merge(ctx, drv, cfgmod, env)
         nseq = ctx.n(4000, 30000)
         for s in range(nseq):
             rng = ctx.rng.fork(s)
             init = "module" if rng.chance(0.5) else "empty"
-            touched = []
-            ops = []
-            for _ in range(rng.randint(2, 14)):
-                op = gen_op(rng, touched)
-                for k, _v in op.get("arg", []):
-                    touched.append(k.split("."))
-                ops.append(op)
-            run_sequence(ctx, drv, cfgmod, ops, init, env, (saved_cfg, saved_defaults))
+            ops = gen_sequence(rng)
+            senv = env
+            if rng.chance(0.25):
+                # simulated device environment; check_key_val reads config["has_cupy"] after a CUDA request, so these
+                # histories start from the module's own state (which holds has_cupy = False on this image)
+                senv = rng.choice(SIM_ENVS)
+                init = "module"
+            run_sequence(ctx, drv, cfgmod, ops, init, senv, (saved_cfg, saved_defaults), env)
     finally:
         drv.close()
         cfgmod.config.clear()
@@ -489,8 +1019,19 @@ def replay(ctx, rep):
     drv = Driver("C19")
     saved_cfg = copy.deepcopy(cfgmod.config)
     saved_defaults = copy.deepcopy(cfgmod.defaults)
+    env = device_available()
+    env["cur"] = 0
     try:
-        run_sequence(ctx, drv, cfgmod, case["ops"], case["init"], case.get("env") or device_available(), (saved_cfg, saved_defaults))
+        if "ops" in case:
+            run_sequence(ctx, drv, cfgmod, case["ops"], case["init"], case.get("env") or env, (saved_cfg, saved_defaults), env)
+        elif case.get("stream") == "validate_device":
+            stream_validate_device(ctx, drv, cfgmod, env)
+        elif case.get("stream") == "initialize":
+            stream_initialize(ctx, drv, cfgmod, saved_cfg, saved_defaults, env)
+        elif case.get("stream") in ("update", "merge"):
+            stream_update_merge(ctx, drv, cfgmod, env)
+        else:
+            stream_signatures(ctx, cfgmod)
     finally:
         drv.close()
         cfgmod.config.clear()
